@@ -342,6 +342,17 @@ impl Check for C13 {
                 avs.clear();
                 match chosen {
                     Some(x) => {
+                        // whatever the status vector says: a connected peer that does not choke us
+                        // and has been asked for x is fetching it
+                        let fetching: Vec<&String> = snap.peers.iter().filter(|p| p.addr != *addr && p.piece_index == Some(*x) && !p.choked).map(|p| &p.addr).collect();
+                        if !end_game && !fetching.is_empty() {
+                            vd.fail(
+                                "C13",
+                                "C13.picked-in-flight",
+                                format!("{} was given piece {} which {:?} is already fetching, with {} pieces still missing (status of the piece: {})", addr, x, fetching, not_have, snap.status.get(*x).cloned().unwrap_or(-9)),
+                                e.seq,
+                            );
+                        }
                         if !s2.contains(x) {
                             vd.fail(
                                 "C13",
